@@ -2,7 +2,8 @@ from _common import COMMON_NOTE
 
 META = {
  'title': 'CPU-visible memory follows the Spectrum memory map and 128K paging rules',
- 'lean_modules': ['ZxVerif.Props.C06', 'ZxVerif.Props.C06Sys', 'ZxVerif.Props.C06Prog'],
+ 'lean_modules': ['ZxVerif.Props.C06', 'ZxVerif.Props.C06X', 'ZxVerif.Props.C06Sys', 'ZxVerif.Props.C06Prog'],
+ 'extract': ['Paging'],
  'modelled_code': ['rustzx-core/src/zx/memory.rs (ZXMemory: map, read, write, remap, paged_address, rom_page_data_mut)',
                    'rustzx-core/src/zx/controller.rs (write_7ffd, read_internal, write_internal memory part, ZXController::new paging fields)',
                    'rustzx-core/src/emulator/mod.rs (load_rom_binary_16k_pages, peek)'],
@@ -11,7 +12,7 @@ META = {
                  'RAM contents are modelled as functions bank -> offset -> byte (no size bound in the proofs)'],
  'design_ref': 'DESIGN.md section 8, C06',
  'technique': 'Lean 4 proof: refinement of the concrete paging/map state to an abstract bank map, invariant + induction over operation histories; tied to the code by an exhaustive 64x256 paging sweep and seeded memory histories',
- 'level_text': 'Whole-program corollaries on the composed machine (Z80 reference on the Spectrum bus) by a closure theorem over every instruction: ROM never changes and a locked/48K machine keeps its map under every program. Refinement theorem in Lean 4: for every history of paging writes and memory writes the concrete model (four-slot map + latch + lock) equals the abstract spec (contents per bank, last accepted latch value, lock); corollaries: window map, ROM read-only, lock is forever, read-your-write through exactly the aliases, 48K ignores paging, remap never panics. Tied to the Rust code on every run: all 64 paging states x all 256 latch values, plus seeded histories with reads through every window, compared with model and spec after every operation.'
+ 'level_text': 'Whole-program corollaries on the composed machine (Z80 reference on the Spectrum bus) by a closure theorem over every instruction: ROM never changes and a locked/48K machine keeps its map under every program. Refinement theorem in Lean 4: for every history of paging writes and memory writes the concrete model (four-slot map + latch + lock) equals the abstract spec (contents per bank, last accepted latch value, lock); corollaries: window map, ROM read-only, lock is forever, read-your-write through exactly the aliases, 48K ignores paging, remap never panics. Tied to the Rust code on every run: all 64 paging states x all 256 latch values, plus seeded histories with reads through every window, compared with model and spec after every operation. In addition write_7ffd, restore_7ffd, the reset maps of ZXMemory::new / ZXController::new, the arrays ZXMemory::read / write go to, paged_address and the panic guards of remap are translated statement by statement from the source on every run (tools/extract.py, table Paging) and proved equal to the model for every state and every written byte, hence to the spec\'s out7ffd (Props/C06X).'
                ' Whole-program form (Props/C06Prog): after every program run from reset on the 128K (any instructions, port writes to any port, interrupts) the window map, the physical target of writes, the displayed screen bank are what the last accepted latch value says, and the remap panic is unreachable.',
 
  'level_note': COMMON_NOTE + ' bv_decide is used for two 8-bit facts (ROM bit, bank < 8).',
